@@ -1,8 +1,8 @@
 /- Line-protocol driver for the C07 models (path search, traces, calling contexts).
 
    cfg <id>                      start a CFG; then one `b <succs,comma-separated | ->` line per block
-   hp <src> <tgt> <fuel>         -> hp <id> <src> <tgt> cur=<ans>,<steps>,<done> fix=<ans>,<steps>,<done>
-   sweep <fuel>                  -> sweep <id> cur=<max steps over all src, absent tgt>,<all done> fix=… wf=<b> n=<blocks> d=<maxDeg>
+   hp <src> <tgt> <fuel>         -> hp <id> <src> <tgt> old=<ans>,<steps>,<done> fix=<ans>,<steps>,<done>
+   sweep <fuel>                  -> sweep <id> old=<max steps over all src, absent tgt>,<all done> fix=… wf=<b> n=<blocks> d=<maxDeg>
    dia <n>                       -> dia <the model's `diamonds n` as b-lines joined by ;>
    lasso <l1> … <lk>             (root first, current node last) -> lasso <0|1>
    ctxgraph <n>                  start a call-node graph with nodes 0..n-1; then
@@ -66,7 +66,7 @@ partial def loop (h : IO.FS.Stream) (st : St) : IO Unit := do
     match src.toNat?, tgt.toNat?, fuel.toNat? with
     | some s, some t, some f =>
       let g := st.blocks.toList
-      IO.println s!"hp {st.id} {s} {t} cur={showRes (hasPathCur g s t f)} fix={showRes (hasPathFix g s t f)}"
+      IO.println s!"hp {st.id} {s} {t} old={showRes (hasPathOld g s t f)} fix={showRes (hasPathFix g s t f)}"
     | _, _, _ => IO.println s!"bad-record {st.id}"
     loop h st
   | ["sweep", fuel] =>
@@ -74,9 +74,9 @@ partial def loop (h : IO.FS.Stream) (st : St) : IO Unit := do
     | some f =>
       let g := st.blocks.toList
       let n := g.length
-      let c := sweepOne (fun s => hasPathCur g s n f) n
+      let c := sweepOne (fun s => hasPathOld g s n f) n
       let x := sweepOne (fun s => hasPathFix g s n f) n
-      IO.println s!"sweep {st.id} cur={c.1},{b2s c.2} fix={x.1},{b2s x.2} wf={b2s (wf g)} n={n} d={maxDeg g}"
+      IO.println s!"sweep {st.id} old={c.1},{b2s c.2} fix={x.1},{b2s x.2} wf={b2s (wf g)} n={n} d={maxDeg g}"
     | none => IO.println s!"bad-record {st.id}"
     loop h st
   | ["dia", n] =>
